@@ -12,6 +12,8 @@
 EXTENDS Integers, Sequences, FiniteSets, TLC, Json
 
 CONSTANTS NodeNames, LinkNames, PatNames, CurveNames, SrcNames, CtlNames,
+          Preload,      \* 0: histories start from the empty model; 1: from a small populated model (so that link operations,
+                        \* controls and re-assignments are enabled from the first step; the harness builds the same model)
           Record,       \* TRUE: keep the history (for replay); FALSE: pure state space (model checking)
           MaxLen        \* bound on the history length when recording
 
@@ -49,6 +51,7 @@ View == [nodes |-> Dom(nodes), junctions |-> OfNodeType("J"), tanks |-> OfNodeTy
          head_pumps |-> OfLinkType({"hpump"}), power_pumps |-> OfLinkType({"ppump"}),
          valves |-> OfLinkType({"PRV", "TCV"}), prvs |-> OfLinkType({"PRV"}), tcvs |-> OfLinkType({"TCV"}),
          patterns |-> pats, curves |-> Dom(curves), sources |-> Dom(srcs), controls |-> Dom(ctls),
+         pump_curves |-> {c \in Dom(curves) : curves[c] = "HEAD"}, volume_curves |-> {c \in Dom(curves) : curves[c] = "VOLUME"},
          ends |-> [l \in Dom(links) |-> <<links[l].a, links[l].b>>],
          node_usage |-> [n \in Dom(nodes) |-> NodeUsage(n)],
          pat_usage |-> [p \in pats |-> PatUsage(p)],
@@ -70,7 +73,7 @@ AddNode(n, t, p, c) ==
   /\ nodes' = Put(nodes, n, [type |-> t, pats |-> IF p = "" THEN {} ELSE {p}, curve |-> c])
   /\ UNCHANGED <<links, pats, curves, srcs, ctls>> /\ Log("add_node", <<n, t, p, c>>, "ok")
 AddLink(l, t, a, b, c) ==
-  /\ CanRecord /\ l \notin Dom(links) /\ a \in Dom(nodes) /\ b \in Dom(nodes) /\ a # b
+  /\ CanRecord /\ l \notin Dom(links) /\ a \in Dom(nodes) /\ b \in Dom(nodes)      \* a = b (a loop) is accepted by the API
   /\ (t = "hpump" => c # "") /\ (t # "hpump" => c = "")
   /\ (t = "PRV" => nodes[a].type = "J" /\ nodes[b].type = "J")     \* add_valve refuses PRV/PSV/FCV next to a tank/reservoir
   /\ links' = Put(links, l, [type |-> t, a |-> a, b |-> b, pat |-> "", curve |-> c])
@@ -86,6 +89,16 @@ AddControl(k, l, n) ==     \* control acting on link l, conditioned on node n ("
   /\ CanRecord /\ k \notin Dom(ctls) /\ l \in Dom(links) /\ (n = "" \/ n \in Dom(nodes))
   /\ ctls' = Put(ctls, k, {l} \cup (IF n = "" THEN {} ELSE {n}))
   /\ UNCHANGED <<nodes, links, pats, curves, srcs>> /\ Log("add_control", <<k, l, n>>, "ok")
+
+\* (only in recorded histories: they leave the data unchanged, so the state-space configuration gains nothing from them)
+\* invalid additions are refused and change nothing: a name that is already taken by a node / link (of any type), a link
+\* whose end node does not exist
+DupNode(n, t) == /\ Record /\ CanRecord /\ n \in Dom(nodes) /\ Refuse("add_node", <<n, t, "", "">>)
+DupLink(l, t, a, b) == /\ Record /\ CanRecord /\ l \in Dom(links) /\ a \in Dom(nodes) /\ b \in Dom(nodes)
+                       /\ Refuse("add_link", <<l, t, a, b, "">>)
+DanglingLink(l, t, a, b) == /\ Record /\ CanRecord /\ l \notin Dom(links)
+                            /\ (a \notin Dom(nodes) \/ b \notin Dom(nodes)) /\ (a \in Dom(nodes) \/ b \in Dom(nodes))
+                            /\ Refuse("add_link", <<l, t, a, b, "">>)
 
 \* removal is refused while the element is used or required by a control; a refusal changes nothing
 RemoveNode(n) ==
@@ -112,7 +125,6 @@ RemoveControl(k) == /\ CanRecord /\ k \in Dom(ctls) /\ ctls' = Drop(ctls, k)
 \* reassignments
 SetEnd(l, which, n) ==
   /\ CanRecord /\ l \in Dom(links) /\ n \in Dom(nodes)
-  /\ n # (IF which = "start" THEN links[l].b ELSE links[l].a)
   /\ links' = [links EXCEPT ![l] = IF which = "start" THEN [@ EXCEPT !.a = n] ELSE [@ EXCEPT !.b = n]]
   /\ UNCHANGED <<nodes, pats, curves, srcs, ctls>> /\ Log("set_" \o which \o "_node", <<l, n>>, "ok")
 SetSpeedPattern(l, p) ==
@@ -136,12 +148,21 @@ AddDemand(n, p) ==
   /\ nodes' = [nodes EXCEPT ![n].pats = @ \cup {p}]
   /\ UNCHANGED <<links, pats, curves, srcs, ctls>> /\ Log("add_demand", <<n, p>>, "ok")
 
-Init == /\ nodes = <<>> /\ links = <<>> /\ pats = {} /\ curves = <<>> /\ srcs = <<>> /\ ctls = <<>>
+J0 == [type |-> "J", pats |-> {}, curve |-> ""]
+Init == /\ IF Preload = 0
+           THEN nodes = <<>> /\ links = <<>> /\ pats = {} /\ curves = <<>>
+           ELSE /\ nodes = [n \in {"n1", "n2"} |-> J0]
+                /\ links = [l \in {"l1"} |-> [type |-> "pipe", a |-> "n1", b |-> "n2", pat |-> "", curve |-> ""]]
+                /\ pats = {"p1"} /\ curves = [c \in {"c1"} |-> "HEAD"]
+        /\ srcs = <<>> /\ ctls = <<>>
         /\ out = "ok" /\ hist = <<>>
 Next ==
   \/ \E n \in NodeNames, t \in {"J", "T", "R"}, p \in PatOpt, c \in CurveOpt("VOLUME") : AddNode(n, t, p, c)
   \/ \E l \in LinkNames, t \in {"pipe", "hpump", "ppump", "PRV", "TCV"}, a, b \in Dom(nodes), c \in CurveOpt("HEAD") :
         AddLink(l, t, a, b, c)
+  \/ \E n \in Dom(nodes), t \in {"J", "T"} : DupNode(n, t)
+  \/ \E l \in Dom(links), t \in {"pipe", "ppump"}, a, b \in Dom(nodes) : DupLink(l, t, a, b)
+  \/ \E t \in {"pipe", "TCV"} : \E l \in LinkNames, a, b \in NodeNames : DanglingLink(l, t, a, b)
   \/ \E p \in PatNames : AddPattern(p) \/ RemovePattern(p)
   \/ \E c \in CurveNames, t \in {"HEAD", "VOLUME"} : AddCurve(c, t)
   \/ \E c \in CurveNames : RemoveCurve(c)
